@@ -34,16 +34,6 @@ type vc15Keys struct {
 	block []byte // nil = no block key
 }
 
-func vx(b []byte) string { return "x" + hex.EncodeToString(b) }
-
-func vunx(tok string) ([]byte, bool) {
-	if !strings.HasPrefix(tok, "x") {
-		return nil, false
-	}
-	b, err := hex.DecodeString(tok[1:])
-	return b, err == nil
-}
-
 func (k *vc15Keys) op() string {
 	b := "-"
 	if k.block != nil {
